@@ -179,8 +179,8 @@ theorem content_step {lib : List Nat} {r : Nat} {f0 : File} (hclean : Clean f0) 
       exact List.mem_mergeSort.mp this
     obtain ⟨o, ho⟩ := mem_oldPaths hmem
     have hl := lookup_of_mem hwf.1 ho
-    obtain ⟨hok, hinv'⟩ := inv_convert hclean hwf.1 hinv.1 ho
-    simp only [applyStep, convertProp, hl]
+    obtain ⟨hok, hinv', hfree⟩ := inv_convert hclean hwf.1 hinv.1 ho
+    simp only [applyStep, convertProp, hl, hfree, Bool.false_eq_true, ↓reduceIte]
     refine ⟨hok, ?_, hinv.2.1, hinv.2.2⟩
     simp only
     rw [createAll_ok _ _ hok]
